@@ -68,7 +68,7 @@ def gen_weights(rng, n, family):
 def generate(run_seed, tier):
     st = Streams(run_seed)
     c = st('config')
-    rmax = 8 if tier == 'quick' else 12
+    rmax = 8 if tier == 'quick' else 24
     Rn = c.choice([1, 2, 2, 3, 3, 4, 5, 6, rmax, c.randint(1, rmax)])
     mcfg = R.gen_model_cfg(c)
     mcfg['contribs'] = ['Absorption'] + [x for x in ('CIA', 'Rayleigh')
@@ -79,7 +79,8 @@ def generate(run_seed, tier):
     derived = [d for d in DERIVED_POOL if c.random() < 0.5]
     if c.random() < 0.15:
         derived = []
-    N = c.choice([2, 3, 4, 5, 7, Rn, Rn + 1, 2 * Rn + 1, c.randint(2, 48)])
+    N = c.choice([2, 3, 4, 5, 7, Rn, Rn + 1, 2 * Rn + 1,
+                  c.randint(2, 48 if tier == 'quick' else 128)])
     N = max(2, N)
     targets = [0, 1, Rn - 1, Rn, Rn + 1, 2 * Rn - 1, 2 * Rn + 1, N, N // 2]
     k = min(N, max(0, c.choice(targets)))
